@@ -338,7 +338,7 @@ async fn metadata_file(lens: Vec<usize>) -> Result<(), String> {
 
 /// C20 (s20_8): a real TransferWriter writes a header with one table name and records (odd ones named by table id) with values of the given
 /// lengths; TransferReader (whole file in memory) and TransferFileReader (FileMessageReader over the file) must read exactly them back.
-async fn transfer_file(lens: Vec<usize>) -> Result<(), String> {
+async fn transfer_file(lens: Vec<usize>, all_by_id: bool) -> Result<(), String> {
     use crate::transfer::model::{TransferHeaderDto, TransferRecordDto};
     use crate::transfer::reader::{reader_transfer_record, TransferFileReader, TransferReader};
     use crate::transfer::writer::TransferWriter;
@@ -351,7 +351,7 @@ async fn transfer_file(lens: Vec<usize>) -> Result<(), String> {
     let mut written = vec![];
     for (i, n) in lens.iter().enumerate() {
         let value: Vec<u8> = (0..*n).map(|j| ((i * 37 + j * 11 + 5) % 251 + 1) as u8).collect();
-        let by_id = i % 2 == 1;
+        let by_id = all_by_id || i % 2 == 1;
         let rec = TransferRecordDto { table_name: if by_id { None } else { Some(table.clone()) }, table_id: if by_id { 1 } else { 0 }, key: vec![i as u8 + 1], value };
         w.write_record(&rec).await.map_err(|e| format!("MODEL: write_record: {}", e))?;
         written.push(rec);
@@ -643,7 +643,7 @@ async fn scenario(name: &str) -> Result<(), String> {
         return filestore_hard_state().await;
     }
     if let Some(l) = name.strip_prefix("transfer_file_") {
-        return transfer_file(l.split('_').filter_map(|x| x.parse().ok()).collect()).await;
+        return transfer_file(l.split('_').filter_map(|x| x.parse().ok()).collect(), l.ends_with("_ids")).await;
     }
     if let Some(l) = name.strip_prefix("metadata_file_") {
         return metadata_file(l.split('_').filter_map(|x| x.parse().ok()).collect()).await;
